@@ -1,4 +1,6 @@
 import WM.Props.C01
+import WM.Props.C01Cursor
+import WM.Lemmas.SearchTopK
 import WM.Lemmas.LengthByte
 import WM.Lemmas.SearchLayout
 import WM.Lemmas.SearchModels
@@ -60,6 +62,127 @@ theorem collector_independent (ls : LeafScore) (so so' : ShapeOracle) (hso : Val
 example : IndexOK freqLeaf WM.C01.exIdx ∧ PosQ WM.C01.exQ ∧
     hits freqLeaf WM.C01.exQ WM.C01.exIdx = [⟨1, 5⟩, ⟨4, 1⟩] :=
   ⟨WM.C01.exIdx_ok, WM.C01.exQ_pos, by decide +kernel⟩
+
+/-! ### the score bridge to the cursor model (C11) -/
+
+/-- the specified `(doc, score)` list of a segment in the matcher family's vocabulary -/
+def specDen (ls : LeafScore) (q : Query) (s : Segment) : WM.Matcher.Den :=
+  (s.live.filter (fun i => sat q (s.doc i))).map (fun i => (i, scoreOf ls q (s.doc i)))
+
+theorem runSpecR_suffix : ∀ (prog : List WM.Matcher.CmdR) (L0 L : WM.Matcher.Den),
+    WM.Matcher.runSpecR prog L0 = some L → L <:+ L0
+  | [], L0, L, h => by simp only [WM.Matcher.runSpecR, Option.some.injEq] at h; subst h; exact List.suffix_refl _
+  | c :: cs, L0, L, h => by
+    simp only [WM.Matcher.runSpecR] at h
+    cases hc : c.spec L0 with
+    | none => rw [hc] at h; cases h
+    | some L1 =>
+      rw [hc] at h
+      have h1 := runSpecR_suffix cs L1 L h
+      have h2 : L1 <:+ L0 := by
+        cases c with
+        | next =>
+          cases L0 with
+          | nil => cases hc
+          | cons p L' => simp only [WM.Matcher.CmdR.spec, Option.some.injEq] at hc; subst hc; exact List.suffix_cons _ _
+        | skipTo t =>
+          cases L0 with
+          | nil => cases hc
+          | cons p L' =>
+            simp only [WM.Matcher.CmdR.spec, Option.some.injEq] at hc; subst hc
+            exact List.dropWhile_suffix _
+        | replace0 => simp only [WM.Matcher.CmdR.spec, Option.some.injEq] at hc; subst hc; exact List.suffix_refl _
+      exact h1.trans h2
+
+/-- **C09 over cursors.**  For every query of the cursor fragment (`CursorOK`: term / null / Every leaves,
+    multi-term expansions, the boolean constructors, union trees and the scored array union) in a scored
+    context, the cursor tree `Query.matcher` builds (`build`) is constructed without error and stands on
+    exactly the specified list `(doc, scoreOf ls q doc)` of the live satisfying documents; and whatever
+    program of `next()` / `skip_to(t)` / `replace()` calls the specification list allows runs on the tree
+    without error and leaves it well formed on the list `L` the list model predicts — so that, wherever
+    the cursor then stands, `id()` is a live document satisfying the query and `score()` **is**
+    `scoreOf ls q` of that document (composition of `WM.C01.cursor_den`, `scores` and
+    `WM.C11.program_replace` / `refine_next`). -/
+theorem cursor_scores (ls : LeafScore) (so : ShapeOracle) (s : Segment) (hso : ValidOracle so)
+    (hleaf : PosLeaf ls s) (q : Query) (hq : PosQ q) (ctx : Ctx) (hsc : ctx.scored = true)
+    (h : CursorOK ls s ctx q) :
+    ∃ m, build ls so s ctx q = .ok m ∧ WM.Matcher.WF m.1 m.2 ∧ m.den = specDen ls q s ∧
+      ∀ (prog : List WM.Matcher.CmdR) (L : WM.Matcher.Den),
+        WM.Matcher.runSpecR prog (specDen ls q s) = some L →
+        ∃ m', WM.Matcher.runR prog m = .ok m' ∧ WM.Matcher.WF m'.1 m'.2 ∧ m'.den = L ∧
+          ∀ d r rest, L = (d, r) :: rest →
+            (WM.Matcher.ops m'.1).id m'.2 = .ok d ∧ (WM.Matcher.ops m'.1).score m'.2 = .ok r ∧
+            r = scoreOf ls q (s.doc d) ∧ d ∈ s.live ∧ sat q (s.doc d) = true := by
+  obtain ⟨m, h1, h2, h3⟩ := WM.C01.cursor_den ls so s q ctx h
+  have hden : m.den = specDen ls q s := by
+    have h4 : toPL m.den = segHits ls q s := by rw [h3]; exact scores ls so s hso hleaf q hq ctx hsc
+    have : m.den = (toPL m.den).map (fun e => (e.id, e.score)) := by
+      simp [toPL, List.map_map, Function.comp_def]
+    rw [this, h4]
+    simp [specDen, segHits, List.map_map, Function.comp_def]
+  refine ⟨m, h1, h2, hden, fun prog L hs => ?_⟩
+  obtain ⟨m', g1, g2, g3⟩ := WM.C11.program_replace prog m h2 L (by rw [hden]; exact hs)
+  refine ⟨m', g1, g2, g3, fun d r rest hL => ?_⟩
+  have hact : (WM.Matcher.ops m'.1).isActive m'.2 = true :=
+    (WM.C11.active_iff m'.1 m'.2 g2).2 (by show m'.den ≠ []; rw [g3, hL]; simp)
+  obtain ⟨x, r', L', m'', e1, e2, e3, -⟩ := WM.C11.refine_next m'.1 m'.2 g2 hact
+  have e1' : m'.den = (x, r') :: L' := e1
+  rw [g3, hL] at e1'
+  simp only [List.cons.injEq, Prod.mk.injEq] at e1'
+  obtain ⟨⟨rfl, rfl⟩, -⟩ := e1'
+  have hmem : (d, r) ∈ specDen ls q s := (runSpecR_suffix prog _ L hs).subset (by rw [hL]; simp)
+  unfold specDen at hmem
+  obtain ⟨i, hi, hir⟩ := List.mem_map.mp hmem
+  simp only [Prod.mk.injEq] at hir
+  obtain ⟨rfl, rfl⟩ := hir
+  have := List.mem_filter.mp hi
+  exact ⟨e2, e3, rfl, this.1, this.2⟩
+
+/-- the hypotheses are satisfiable (the array-union / Every / multi-term example of C01Cursor): after
+    `skip_to(1)` — document 1 is deleted — the cursor stands on document 2 with score 16 -/
+example : CursorOK freqLeaf WM.C01.mSeg ⟨false, true⟩ WM.C01.mQ ∧ PosQ WM.C01.mQ ∧ wfSegment WM.C01.mSeg = true ∧
+    specDen freqLeaf WM.C01.mQ WM.C01.mSeg = [(0, 8), (2, 16), (3, 1)] ∧
+    WM.Matcher.runSpecR [.skipTo 1, .replace0] (specDen freqLeaf WM.C01.mQ WM.C01.mSeg) = some [(2, 16), (3, 1)] :=
+  ⟨WM.C01.mQ_ok, posQ_of_posQuery _ (by decide +kernel), by decide +kernel, by decide +kernel, by decide +kernel⟩
+
+/-! ### composition with C05: `search(q, limit=k)` returns the `k` best by `scoreOf` -/
+
+/-- **C09 ∘ C05.**  Feed the collector family's `TopCollector` model (`WM.Collect.collectTop`: heap admission,
+    periodic `replace(minscore)`, `skip_to_quality(minscore)` on block changes — driven by an arbitrary
+    schedule of drops / score-lowerings within the C12 contract, arbitrary "new block" flags and
+    `supports_block_quality()` answers) with what the per-segment matchers of the query enumerate
+    (`compile`, one per segment with its offset): for every `limit ≥ 1`, `replace` period, `usequality`
+    setting and `final()` hook the result is the first `limit` entries of the ranking (score descending,
+    document number ascending on ties: `WM.Rank.topK`) of the **specified** hits — the live documents that
+    satisfy the query, each scored `scoreOf ls q` (then `final`).  And the unlimited search returns that
+    whole ranking, of which the limited result is the prefix. -/
+theorem search_limit (ls : LeafScore) (so : ShapeOracle) (hso : ValidOracle so) (idx : Index)
+    (hok : IndexOK ls idx) (q : Query) (hq : PosQ q) (nc : Bool)
+    (cfg : WM.Collect.Cfg) (final : Nat → Rat → Rat) (flags : Nat → Nat → Bool) (sup : Nat → Bool)
+    (sched sched' : List WM.Collect.Step) (hk : 1 ≤ cfg.limit) :
+    WM.Collect.collectTop cfg final (collectorSegs ls so ⟨nc, true⟩ q flags sup 0 0 idx) sched =
+      .ok (WM.Rank.topK cfg.limit ((hits ls q idx).map (toRank cfg.useFinal final))) ∧
+    WM.Collect.collectUnlimited cfg.replace cfg.useFinal final false
+        (collectorSegs ls so ⟨nc, true⟩ q flags sup 0 0 idx) sched' =
+      .ok (WM.Rank.rankAll ((hits ls q idx).map (toRank cfg.useFinal final))) := by
+  have hrun : runFrom ls so ⟨nc, true⟩ q 0 idx = hitsFrom ls q 0 idx := runFrom_eq ls so hso q hq ⟨nc, true⟩ rfl idx 0 hok
+  have hwf : (WM.Collect.globalDocs (collectorSegs ls so ⟨nc, true⟩ q flags sup 0 0 idx)).Pairwise (· < ·) := by
+    rw [collectorSegs_docs, hrun]; exact (hitsFrom_asc ls q idx 0).1
+  have hfresh := collectorSegs_fresh ls so ⟨nc, true⟩ q flags sup idx 0 0
+  refine ⟨?_, ?_⟩
+  · rw [WM.C05.topk cfg final _ sched hk hwf hfresh, collectorSegs_hits, hrun]; rfl
+  · rw [WM.C05.unlimited]
+    simp only [Bool.false_eq_true, if_false]
+    rw [collectorSegs_hits, hrun]; rfl
+
+/-- non-vacuity on the two-segment example index of C01 (one deletion): the collector's input is two
+    segments with offsets 0 and 3 holding the hits `(1, 5)` and `(4, 1)`; with `limit = 1` the theorem
+    says that every schedule returns the top 1 of them -/
+example : IndexOK freqLeaf WM.C01.exIdx ∧ PosQ WM.C01.exQ ∧ ValidOracle balancedOracle ∧
+    (hits freqLeaf WM.C01.exQ WM.C01.exIdx).map (toRank false (fun _ x => x)) = [⟨1, 5⟩, ⟨4, 1⟩] ∧
+    (collectorSegs freqLeaf balancedOracle ⟨false, true⟩ WM.C01.exQ (fun _ _ => true) (fun _ => true) 0 0
+      WM.C01.exIdx).map (fun sg => (sg.off, sg.postings.map (·.doc))) = [(0, [1]), (3, [1])] :=
+  ⟨WM.C01.exIdx_ok, WM.C01.exQ_pos, balancedOracle_valid, by decide +kernel, by decide +kernel⟩
 
 /-! ### the shipped rational weighting models -/
 
